@@ -98,7 +98,7 @@ func (s *AddrScenario) Setup(k *sim.Kernel) {
 		}
 		for i, st := range s.Steps {
 			cl := classifyAddr(st.Addr)
-			sim.Rec("step", fmt.Sprint(i))
+			sim.Rec("step", sp(i))
 			switch st.Mode {
 			case "bind":
 				err := svc.Bind(ctx, st.Addr)
